@@ -15,7 +15,8 @@ RULE = ('grammar family: abstract target Shape over every non-empty ordered subs
         'builtin else "Unknown object", several -> "not unique". distinct = (variant, model shape); non-trivial = model has '
         'same-named objects of unrelated classes or a nested definition')
 REQUIRED = {'models': 300, 'references_resolved': 1500, 'unknown_object_errors': 30, 'not_unique_errors': 20,
-            'builtin_resolutions': 20, 'nonconforming_same_name': 100, 'grammar_variants': 10, 'list_references': 200, 'models_with_numeric_names': 100, 'models_with_falsy_builtins': 50, 'mixed_lists_starting_with_a_plain_value': 100}
+            'builtin_resolutions': 20, 'nonconforming_same_name': 100, 'grammar_variants': 10, 'list_references': 200, 'models_with_numeric_names': 100, 'models_with_falsy_builtins': 50, 'mixed_lists_starting_with_a_plain_value': 100,
+            'models_with_tools_support_and_builtins': 50, 'models_with_builtins_outside_any_model': 50}
 
 CONCRETE = ['Circle', 'Square', 'Wire']
 KW = {'Circle': 'circle', 'Square': 'square', 'Wire': 'wire', 'Other': 'other'}
@@ -58,10 +59,10 @@ NUM = {'a': '1', 'b': '2', 'c': '3', 'd': '4', 'e': '5', 'z': '26'}
 _mms = {}
 
 
-def get_mm(sub, builtins_spec, numeric=False, falsy=False):
+def get_mm(sub, builtins_spec, numeric=False, falsy=False, tools=False, orphan=False):
     """metamodels are kept alive and reused so that many variants coexist in the process"""
     from textx import metamodel_from_str
-    key = (sub, builtins_spec, numeric, falsy)
+    key = (sub, builtins_spec, numeric, falsy, tools, orphan)
     if key not in _mms:
         if len(_mms) > 200:
             _mms.clear()
@@ -89,7 +90,11 @@ def get_mm(sub, builtins_spec, numeric=False, falsy=False):
             bm = helper.model_from_str(' '.join('%s %s' % (KW[c], NUM[n] if numeric else n) for n, c in builtins_spec))
             for d in bm.defs:
                 builtins[d.name] = d
-        _mms[key] = metamodel_from_str(g, builtins=builtins) if builtins else metamodel_from_str(g)
+                if orphan:
+                    # hand-made library objects that belong to no model (the documented SimpleType(None, 'int') pattern)
+                    d.parent = None
+        kw = {'textx_tools_support': True} if tools else {}
+        _mms[key] = metamodel_from_str(g, builtins=builtins, **kw) if builtins else metamodel_from_str(g, **kw)
     return _mms[key]
 
 
@@ -155,7 +160,15 @@ def one(ctx, i, rep=None):
     falsy = bool(bspec) and i % 5 == 2
     if falsy:
         ctx.count('models_with_falsy_builtins')
-    mm = get_mm(sub, bspec, numeric, falsy)
+    tools = i % 4 == 1 or (bool(bspec) and i % 4 == 3)
+    orphan = bool(bspec) and i % 3 == 0
+    if tools:
+        ctx.count('models_with_tools_support')
+        if bspec:
+            ctx.count('models_with_tools_support_and_builtins')
+    if orphan:
+        ctx.count('models_with_builtins_outside_any_model')
+    mm = get_mm(sub, bspec, numeric, falsy, tools, orphan)
     builtins = {n: c for n, c in bspec}
 
     def candidates(name, target):
@@ -231,6 +244,10 @@ def one(ctx, i, rep=None):
         return
     except TextXError as e:
         ctx.violation(None, 'unexpected error: %s' % str(e)[:140], wit, rep)
+        return
+    except (AttributeError, TypeError, KeyError, IndexError, ValueError) as e:
+        ctx.violation(None, 'loading raised %s: %s (tools support %s, builtins %r%s)' % (
+            type(e).__name__, str(e)[:100], tools, list(bspec), ' belonging to no model' if orphan else ''), wit, rep)
         return
     ctx.count('models')
     if expect_err is not None:
